@@ -205,8 +205,11 @@ def run(ctx):
     for b in bin_.bodies:
         if any(callee_name(t) == hi.path for _, t in b.calls()):
             pass
-    chan_fns = [(bin_, b) for b in bin_.bodies if b.kind == "fn" and any((callee_name(t) or "") in LINE_SPLITTERS for _, t in b.calls())]
-    chan_fns += [(lib, b) for b in lib.bodies if b.kind in ("fn", "assoc_fn") and b.is_pub and any((callee_name(t) or "") in LINE_SPLITTERS for _, t in b.calls())]
+    def root_of(cr, b):
+        return cr.body(b.parent) if b.kind == "closure" and cr.body(b.parent) is not None else b
+    chan_fns = [(bin_, b) for b in bin_.bodies if b.kind in ("fn", "closure") and any((callee_name(t) or "") in LINE_SPLITTERS for _, t in b.calls())]
+    chan_fns += [(lib, b) for b in lib.bodies if b.kind in ("fn", "assoc_fn", "closure") and root_of(lib, b).is_pub
+                 and any((callee_name(t) or "") in LINE_SPLITTERS for _, t in b.calls())]
     for cr, b in chan_fns:
         dd = local.Defs(b)
         for bi, t in b.calls():
